@@ -250,7 +250,7 @@ structure Sim (σ Op : Type) where
   s : State σ Op Ret
   scripts : List (List Op)     -- remaining calls of each thread
   rng : Nat
-  stuck : Bool
+  cyclic : Nat               -- threads ≥ cyclic repeat their script forever (consumers)
 
 /-- seeded scheduler: pick a thread, perform its next action if enabled -/
 def simLoop {σ Op : Type} (sys : Sys σ Op Ret) (n : Nat) (stop : Sim σ Op → Bool) : Nat → Sim σ Op → Sim σ Op
@@ -273,14 +273,18 @@ def simLoop {σ Op : Type} (sys : Sys σ Op Ret) (n : Nat) (stop : Sim σ Op →
       match step sys m.s a with
       | none => simLoop sys n stop fuel m
       | some s' =>
-        let scripts := match a with | .inv _ _ => m.scripts.set t ((m.scripts.getD t []).drop 1) | _ => m.scripts
+        let scripts := match a with
+          | .inv _ op => m.scripts.set t (if t ≥ m.cyclic then (m.scripts.getD t []).drop 1 ++ [op] else (m.scripts.getD t []).drop 1)
+          | _ => m.scripts
         simLoop sys n stop fuel { m with s := s', scripts := scripts }
 
 def isIdle {σ Op : Type} : Pc σ Op Ret → Bool | .idle => true | _ => false
 
-/-- producers (threads < p) are finished, nobody is inside a call, the structure is empty -/
-def drained {Op : Type} (p n : Nat) (m : Sim (List Int) Op) : Bool :=
-  m.s.obj.isEmpty && (List.range p).all (fun t => (m.scripts.getD t []).isEmpty) && (List.range n).all (fun t => isIdle (m.s.pc t))
+/-- producers (threads < p) are finished, the structure is empty and `total` values have been removed
+    (consumers may be in the middle of a further, necessarily empty, call) -/
+def drained {Op : Type} (p total : Nat) (m : Sim (List Int) Op) : Bool :=
+  m.s.obj.isEmpty && (List.range p).all (fun t => (m.scripts.getD t []).isEmpty) &&
+  (okVals (m.s.lin.map (·.ret))).length == total
 
 def allDone {σ Op : Type} (n : Nat) (m : Sim σ Op) : Bool :=
   (List.range n).all (fun t => (m.scripts.getD t []).isEmpty && isIdle (m.s.pc t))
@@ -321,21 +325,20 @@ def stressCase (kind : String) (toks : List String) : String :=
   if p = 0 ∨ c = 0 then "bad-case" else
   let n' := min n (max 1 (240 / p))
   let total := p * n'
-  let per := (total + c - 1) / c       -- upper bound of removals a consumer needs to try
-  let fuel := (p + c) * 5 * (total * 2 + c * 4) * 6 + 4096
+  let fuel := (p + c) * 5 * (total * 2 + c * 4) * 40 + 8192
   if kind = "q" then
     let scripts : List (List QOp) := (List.range (p + c)).map fun t =>
       if t < p then (List.range n').map (fun i => if i % 2 = 0 then QOp.offer (Int.ofNat (t * 100000 + i)) else QOp.put (Int.ofNat (t * 100000 + i)))
-      else (List.range (per + total)).map (fun i => if i % 2 = 0 then QOp.poll else QOp.take)
-    let m := simLoop queueSys (p + c) (drained p (p + c)) fuel ⟨initState queueSys, scripts, seed + 1, false⟩
-    -- consumers have more polls scripted than values exist: the run is cut when fuel ends; what matters is
-    -- that every value offered came out exactly once in FIFO order and the structure is empty
+      else [QOp.poll, QOp.take]
+    let m := simLoop queueSys (p + c) (drained p total) fuel ⟨initState queueSys, scripts, seed + 1, p⟩
+    -- consumers poll until the run is drained (or the generous fuel ends); what matters is that every value
+    -- offered came out exactly once in FIFO order and the structure is empty
     if queueMonitorsOk m.s total then s!"ok offered={p * n} removed={p * n}" else "viol model-monitor"
   else
     let scripts : List (List SOp) := (List.range (p + c)).map fun t =>
       if t < p then (List.range n').map (fun i => SOp.push (Int.ofNat (t * 100000 + i)))
-      else (List.range (per + total)).map (fun _ => SOp.pop)
-    let m := simLoop stackSys (p + c) (drained p (p + c)) fuel ⟨initState stackSys, scripts, seed + 1, false⟩
+      else [SOp.pop]
+    let m := simLoop stackSys (p + c) (drained p total) fuel ⟨initState stackSys, scripts, seed + 1, p⟩
     if stackMonitorsOk m.s total then s!"ok offered={p * n} removed={p * n}" else "viol model-monitor"
 
 /-- `hist q|s <impl> t=T k=K seed=S`: T threads, K random calls each, free-running; the real history is
@@ -350,14 +353,14 @@ def histCase (kind : String) (toks : List String) : String :=
   if kind = "q" then
     let scripts : List (List QOp) := (List.range t).map fun th =>
       (List.range k).map (fun i => if (lcg (seed * 131 + th * 17 + i) / 65536) % 2 = 0 then QOp.offer (Int.ofNat (th * 100 + i)) else QOp.poll)
-    let m := simLoop queueSys t (allDone t) fuel ⟨initState queueSys, scripts, seed + 1, false⟩
+    let m := simLoop queueSys t (allDone t) fuel ⟨initState queueSys, scripts, seed + 1, t⟩
     let ok := decide ((seqRun qApply [] (m.s.lin.map (·.op))).2 = m.s.lin.map (·.ret)) && okTimes m.s.done &&
               decide (m.s.done.length = t * k)
     if ok then s!"ok linearizable ops={t * k}" else "viol model-monitor"
   else
     let scripts : List (List SOp) := (List.range t).map fun th =>
       (List.range k).map (fun i => if (lcg (seed * 131 + th * 17 + i) / 65536) % 2 = 0 then SOp.push (Int.ofNat (th * 100 + i)) else SOp.pop)
-    let m := simLoop stackSys t (allDone t) fuel ⟨initState stackSys, scripts, seed + 1, false⟩
+    let m := simLoop stackSys t (allDone t) fuel ⟨initState stackSys, scripts, seed + 1, t⟩
     let ok := decide ((seqRun sApply [] (m.s.lin.map (·.op))).2 = m.s.lin.map (·.ret)) && okTimesS m.s.done &&
               decide (m.s.done.length = t * k)
     if ok then s!"ok linearizable ops={t * k}" else "viol model-monitor"
